@@ -152,22 +152,33 @@ func generate(seed uint64, size int) *genState {
 	return gs
 }
 
-// install replaces the storage content by gs through the storage API.
+// install turns the storage content into gs through the storage API, the way a running router does: only what
+// differs is deleted or saved (a state that already equals gs sees no modifying call at all).
 func install(st *storage.JSONFileStorage, gs *genState) error {
-	// remove what is there
+	want := map[netip.Addr]bool{}
+	for _, sr := range gs.routers {
+		want[sr.Address.IP] = true
+	}
 	for _, ip := range haveRouters(st) {
-		if err := st.DeleteRouter(ip); err != nil {
-			return err
+		if !want[ip] {
+			if err := st.DeleteRouter(ip); err != nil {
+				return err
+			}
 		}
 	}
 	maps, err := st.QueryMappings("")
 	if err != nil {
 		return err
 	}
+	haveMap := map[string]netip.Addr{}
 	for _, mp := range maps {
-		if err := st.DeleteMapping(mp.Domain); err != nil {
-			return err
+		if _, ok := gs.mappings[mp.Domain]; !ok {
+			if err := st.DeleteMapping(mp.Domain); err != nil {
+				return err
+			}
+			continue
 		}
+		haveMap[mp.Domain] = mp.Router
 	}
 	for _, sr := range gs.routers {
 		cp := *sr
@@ -176,6 +187,9 @@ func install(st *storage.JSONFileStorage, gs *genState) error {
 		}
 	}
 	for d, ip := range gs.mappings {
+		if haveMap[d] == ip {
+			continue
+		}
 		if err := st.SaveMapping(d, ip); err != nil {
 			return err
 		}
@@ -392,7 +406,11 @@ func (rn *runner) pairCase(workDir string, id int, s0seed uint64, s0size int, s1
 		st, _ := storage.NewJSONFileStorage(filepath.Join(tmpl, "absent.json"))
 		s0dump = dump(st)
 	}
-	s0bytes, _ := os.ReadFile(filepath.Join(tmpl, "state.json"))
+	s0bytes, s0err := os.ReadFile(filepath.Join(tmpl, "state.json"))
+	if s0err != nil {
+		// nothing was written for S0 (no file is a valid form of the empty state): start the experiments without one
+		s0size = -1
+	}
 
 	fresh := func(name string) string {
 		d := filepath.Join(base, name)
@@ -488,6 +506,12 @@ func (rn *runner) pairCase(workDir string, id int, s0seed uint64, s0size int, s1
 		if err != nil {
 			res.Violate("start-refused-after-crash:"+mech, fmt.Sprintf("after a crash (%s at %s) the next start fails: %v", mech, point, err), wit)
 			return false
+		}
+		// the new state of THIS run: the crashed child installed S1 itself (the storage stamps saves with its own
+		// clock), and wrote what its storage held to s1.dump before it began to save
+		s1dump := s1dump
+		if own, e := os.ReadFile(filepath.Join(dir, "s1.dump")); e == nil {
+			s1dump = string(own)
 		}
 		if got != s0dump && got != s1dump {
 			which := firstDiff(s1dump, got)
@@ -646,6 +670,88 @@ func (rn *runner) pairCase(workDir string, id int, s0seed uint64, s0size int, s1
 	res.Count("state_pairs_completed", 1)
 }
 
+// generations: see run.
+func generations(res *core.Result, r *rand.Rand, dir string) {
+	_ = os.MkdirAll(dir, 0o755)
+	defer os.RemoveAll(dir)
+	path := filepath.Join(dir, "state.json")
+	size := 1 + r.IntN(30)
+	seed := r.Uint64()
+	gs := generate(seed, size)
+	if len(gs.mappings) == 0 {
+		gs.mappings["gen0.myco"] = genAddr(r)
+	}
+	st, err := storage.NewJSONFileStorage(path)
+	if err == nil {
+		err = install(st, gs)
+	}
+	if err != nil {
+		res.Inconcl("generations setup: %v", err)
+		return
+	}
+	if err := st.Stop(); err != nil {
+		res.Violate("save-failed", fmt.Sprintf("saving a valid state failed: %v", err), map[string]any{"seed": seed, "size": size})
+		return
+	}
+	steps := []string{"lookups-only", "delete-one-mapping", "no-change", "delete-one-router", "save-one-mapping", "lookups-only", "save-one-router", "prune"}
+	r.Shuffle(len(steps), func(a, b int) { steps[a], steps[b] = steps[b], steps[a] })
+	history := []string{fmt.Sprintf("first run saves %d routers, %d mappings", len(gs.routers), len(gs.mappings))}
+	for _, step := range steps {
+		st, err := storage.NewJSONFileStorage(path)
+		if err != nil {
+			res.Violate("reload-failed", fmt.Sprintf("state file of the previous run does not load: %v (history: %s)", err, strings.Join(history, "; ")), map[string]any{"seed": seed, "size": size, "case_id": "generations"})
+			return
+		}
+		ips := haveRouters(st)
+		maps, _ := st.QueryMappings("")
+		switch step {
+		case "lookups-only":
+			for _, ip := range ips {
+				if r.IntN(2) == 0 {
+					_, _ = st.GetRouter(ip)
+				}
+			}
+			if len(ips) > 0 {
+				_, _ = st.GetRouter(ips[0])
+			}
+			for _, mp := range maps {
+				_, _ = st.GetMapping(mp.Domain)
+			}
+		case "delete-one-mapping":
+			if len(maps) > 0 {
+				_ = st.DeleteMapping(maps[r.IntN(len(maps))].Domain)
+			}
+		case "delete-one-router":
+			if len(ips) > 0 {
+				_ = st.DeleteRouter(ips[r.IntN(len(ips))])
+			}
+		case "save-one-mapping":
+			_ = st.SaveMapping(fmt.Sprintf("gen%d.myco", r.IntN(1000000)), genAddr(r))
+		case "save-one-router":
+			extra := generate(r.Uint64(), 1)
+			if len(extra.routers) > 0 {
+				cp := *extra.routers[0]
+				_ = st.SaveRouter(&cp)
+			}
+		case "prune":
+			st.Prune(len(ips) / 2)
+		}
+		history = append(history, step)
+		want := dump(st)
+		if err := st.Stop(); err != nil {
+			res.Violate("save-failed", fmt.Sprintf("saving failed: %v (history: %s)", err, strings.Join(history, "; ")), map[string]any{"seed": seed, "size": size, "case_id": "generations"})
+			return
+		}
+		got, err := loadDump(path)
+		if err != nil || got != want {
+			res.Violate("roundtrip-differs:after-"+step, fmt.Sprintf("what the next start loads (err %v) differs from what the storage held at shutdown: %s (history of runs on this file: %s)", err, firstDiff(want, got), strings.Join(history, "; ")), map[string]any{"seed": seed, "size": size, "case_id": "generations"})
+			return
+		}
+		res.Count("generation_roundtrips:"+step, 1)
+	}
+	res.Case(fmt.Sprintf("generations:%d:%d:%s", seed, size, strings.Join(steps, ",")), true)
+}
+
 func firstDiff(a, b string) string {
 	la, lb := strings.Split(a, "\n"), strings.Split(b, "\n")
 	for i := 0; i < len(la) || i < len(lb); i++ {
@@ -757,6 +863,16 @@ func run(c *core.Ctx) {
 			res.Count("roundtrips_exact", 1)
 			res.Case(fmt.Sprintf("roundtrip:%d:%d", seed, size), size > 0)
 			_ = os.RemoveAll(dir)
+		}
+	})
+	// generations: one state file lives through several runs of the router, and each run changes the state through
+	// exactly one kind of storage call (or none): whatever the storage reports right before Stop must be what the
+	// next start loads.
+	ngen := c.Q(24, 240)
+	parallel(8, func(w int) {
+		rr := core.RNG(fmt.Sprintf("c18/gen/%d", w))
+		for i := w; i < ngen; i += 8 {
+			generations(res, rr, filepath.Join(c.WorkDir, fmt.Sprintf("gen%d", i)))
 		}
 	})
 	parallel(len(pairs), func(w int) {
